@@ -173,3 +173,15 @@ def contracts():
     for c in extra:
         c.prop = PROP
     return _c20_base() + extra
+
+
+# what is printed comes from values(): get_value_generator and the class parameter table
+_c20_base2 = contracts
+
+
+def contracts():
+    from contracts import c13 as _c13
+    extra = [_c13.get_value_generator_dynamic_contract(), _c13.get_value_generator_contract("plain"), _c13.cls_parameters_contract()]
+    for c in extra:
+        c.prop = PROP
+    return _c20_base2() + extra
